@@ -61,10 +61,10 @@ class Requestant(httping.Parsent):
         client closes it
         Sets the .persisted flag
         """
-        connection = self.headers.get("connection")  # check connection header
+        connection = self.headers.nab("connection")  # check connection header
         if self.version == (1, 1):  # rules for http v1.1
             self.persisted = True  # connections default to persisted
-            connection = self.headers.get("connection")
+            connection = self.headers.nab("connection")
             if connection and "close" in connection.lower():
                 self.persisted = False  # unless connection set to close.
 
@@ -149,14 +149,14 @@ class Requestant(httping.Parsent):
         self.headers.update(headers)
 
         # are we using the chunked-style of transfer encoding?
-        transferEncoding = self.headers.get("transfer-encoding")
+        transferEncoding = self.headers.nab("transfer-encoding")
         if transferEncoding and transferEncoding.lower() == "chunked":
             self.chunked = True
         else:
             self.chunked = False
 
         # NOTE: RFC 2616, S4.4, #3 says ignore if transfer-encoding is "chunked"
-        contentLength = self.headers.get("content-length")
+        contentLength = self.headers.nab("content-length")
         if not self.chunked:
             if contentLength:
                 try:
@@ -171,7 +171,7 @@ class Requestant(httping.Parsent):
         else: # ignore content-length if chunked
             self.length = None
 
-        contentType = self.headers.get("content-type")
+        contentType = self.headers.nab("content-type")
         if contentType:
             if u';' in contentType: # should also parse out charset for decoding
                 contentType, sep, encoding = contentType.rpartition(u';')
@@ -724,13 +724,15 @@ class Server():
         # Optional CGI variables
         environ['QUERY_STRING'] = requestant.query        # name=john
         environ['REMOTE_ADDR'] = requestant.remoter.ca
-        environ['CONTENT_TYPE'] = requestant.headers.get('content-type', '')
+        environ['CONTENT_TYPE'] = requestant.headers.nab('content-type', '')
         if requestant.length is not None:
             environ['CONTENT_LENGTH'] = str(requestant.length)
 
         # recieved http headers mapped to all caps with HTTP_ prepended
         for key, value in requestant.headers.items():
             key = "HTTP_" + key.replace("-", "_").upper()
+            if key in environ:  # repeated header field, combine as per RFC 3875 4.1.18
+                value = environ[key] + ("; " if key == "HTTP_COOKIE" else ", ") + value
             environ[key] = value
 
         return environ
